@@ -989,6 +989,13 @@ def r8_reason(ctx, fam):
 
 
 def run(ctx):
+    ctx.rule('C04.R12', 'exception identity: ConnectionRefusedError / '
+             'ConnectionError named in the server modules are the package\'s '
+             'classes (what the connect path catches), never the builtins of '
+             'the same name', floor=0)
+    from .common import exception_identity
+    exception_identity(ctx, ('server', 'async_server', 'base_server',
+                             'namespace', 'async_namespace'), 'C04.R12')
     ctx.rule('C04.R1', 'asyncio: no suspension point between the '
              'connected-test and the pre_disconnect mark', floor=2)
     ctx.rule('C04.R2', "'disconnect' trigger: gate -> mark -> handler -> "
